@@ -350,12 +350,13 @@ func (h *dbHarness) onPanic(t *simrt.Task, r any) bool {
 		}
 		h.count("failstop_after_fault:"+msg+" @ "+site, 1)
 		switch {
-		case strings.Contains(stack, "(*fileBufferedWritable).Abort") && strings.Contains(stack, "blob.(*FileWriter).Close"),
-			strings.Contains(stack, "(*BufferPool).Release") && strings.Contains(stack, "runBlobFileRewriteLocked"):
-			simrt.FailNoPark("oracle:panic-after-fault", fmt.Sprintf("a defect that was repaired in /repo is back: after an injected I/O error the process panics (%v) in %s\n%s", r, site, stack))
-			return true
 		case h.opening || h.openFailed:
 			h.addKnown("C43:background-job-outlives-failed-open")
+		case strings.Contains(stack, "(*fileBufferedWritable).Abort") && strings.Contains(stack, "blob.(*FileWriter).Close"),
+			strings.Contains(stack, "(*BufferPool).Release") && strings.Contains(stack, "runBlobFileRewriteLocked"),
+			strings.Contains(stack, "(*fileCacheHandle).Evict") && strings.Contains(fmt.Sprint(r), "(blob)") && h.stat["ev.compaction.blob-file-rewrite"] > 0:
+			simrt.FailNoPark("oracle:panic-after-fault", fmt.Sprintf("a defect that was repaired in /repo is back: after an injected I/O error the process panics (%v) in %s\n%s", r, site, stack))
+			return true
 		}
 	}
 	h.count("panic.crash", 1)
